@@ -18,6 +18,8 @@ import (
 	"fmt"
 	"os"
 
+	"github.com/anacrolix/log"
+
 	"verifharness/sim"
 )
 
@@ -28,11 +30,13 @@ func main() {
 	out := flag.String("out", "trace.ndjson", "")
 	scripts := flag.String("scripts", "", "query mode: JSON array of scripts from the generator model")
 	only := flag.String("only", "", "run only this scenario (script id / owner scenario name)")
-	part := flag.Int("part", 0, "query mode: run the scripts with index % parts == part")
+	part := flag.Int("part", 0, "run the scenarios with index % parts == part")
 	parts := flag.Int("parts", 1, "")
 	leak := flag.Duration("leakwait", leakBound, "how long something must stay behind to be called a leak")
+	maxfail := flag.Int("maxfail", 8, "query mode: stop after this many scenarios that left something behind or hung")
 	flag.Parse()
 	leakBound = *leak
+	log.Default.SetHandlers(log.DiscardHandler) // getput logs through the context's default logger
 	tr, err := sim.NewTrace(*out)
 	must(err)
 	switch *mode {
@@ -42,7 +46,7 @@ func main() {
 		must(err)
 		must(json.Unmarshal(b, &scs))
 		var sts []qstatus
-		run := 0
+		run, failed := 0, 0
 		for i, sc := range scs {
 			if *only != "" && fmt.Sprint(sc.Id) != *only {
 				continue
@@ -58,6 +62,12 @@ func main() {
 			if st.Diverged || st.Skipped > 0 || st.Hang != "" || len(st.Leaked) > 0 {
 				sts = append(sts, st)
 			}
+			if st.Hang != "" || st.Dirty {
+				failed++
+				if failed >= *maxfail {
+					break // each costs the full bound; the verdict is red anyway
+				}
+			}
 		}
 		must(tr.Close())
 		div, skip := 0, 0
@@ -71,10 +81,11 @@ func main() {
 				notes = append(notes, s)
 			}
 		}
-		js, _ := json.Marshal(map[string]any{"scenarios": run, "events": tr.Len(), "diverged": div, "skipped": skip, "notes": notes})
+		js, _ := json.Marshal(map[string]any{"scenarios": run, "events": tr.Len(), "diverged": div, "skipped": skip, "notes": notes,
+			"stopped_early": failed >= *maxfail})
 		fmt.Println(string(js))
 	case "owners":
-		sts := runOwners(tr, *seed, *only, *n)
+		sts := runOwners(tr, *seed, *only, *n, *part, *parts)
 		must(tr.Close())
 		js, _ := json.Marshal(map[string]any{"scenarios": len(sts), "events": tr.Len(), "status": sts})
 		fmt.Println(string(js))
